@@ -1,0 +1,113 @@
+//go:build verif && !notmono && !codec.notmono
+
+// Verification hooks for C13 (compiled only with -tags verif, default
+// monomorphised build). Add-only: lets a harness call a driver's
+// DecodeBytes / DecodeStringAsBytes at the current stream position and see the
+// attach state it reports, the bytes it hands back (as returned: the harness
+// tests their address range) and the decoder-internal memory they may live in.
+// Nothing here is referenced by the library itself.
+
+package codec
+
+// VerifC13View is what one driver call returned.
+type VerifC13View struct {
+	Bytes     []byte   // exactly the slice the driver returned (not copied)
+	Att       uint8    // dBytesAttachState reported with it
+	Err       error    // the panic raised by halt, if any
+	ReaderBuf []byte   // ioDecReader.buf[:cap] after the call (nil for a bytes reader)
+	Scratch   [][]byte // decoderBase.buf[:cap], decoderBase.b[:], json driver buf[:cap]
+	SymTab    [][]byte // binc symbol table entries after the call
+}
+
+// VerifC13DriverBytes calls d's driver: DecodeStringAsBytes if asString, else DecodeBytes.
+func VerifC13DriverBytes(d *Decoder, asString bool) (v VerifC13View) {
+	var dr decDriverI
+	var base *decoderBase
+	var iorbuf *[]byte
+	var jbuf *[]byte
+	var syms map[uint16][]byte
+	switch x := d.decoderI.(type) {
+	case *decoderCborBytes:
+		dr, base = &x.d, &x.decoderBase
+	case *decoderCborIO:
+		dr, base, iorbuf = &x.d, &x.decoderBase, &x.d.r.buf
+	case *decoderMsgpackBytes:
+		dr, base = &x.d, &x.decoderBase
+	case *decoderMsgpackIO:
+		dr, base, iorbuf = &x.d, &x.decoderBase, &x.d.r.buf
+	case *decoderBincBytes:
+		dr, base = &x.d, &x.decoderBase
+		defer func() { syms = x.d.s; verifC13Syms(&v, syms) }()
+	case *decoderBincIO:
+		dr, base, iorbuf = &x.d, &x.decoderBase, &x.d.r.buf
+		defer func() { syms = x.d.s; verifC13Syms(&v, syms) }()
+	case *decoderSimpleBytes:
+		dr, base = &x.d, &x.decoderBase
+	case *decoderSimpleIO:
+		dr, base, iorbuf = &x.d, &x.decoderBase, &x.d.r.buf
+	case *decoderJsonBytes:
+		dr, base, jbuf = &x.d, &x.decoderBase, &x.d.buf
+	case *decoderJsonIO:
+		dr, base, iorbuf, jbuf = &x.d, &x.decoderBase, &x.d.r.buf, &x.d.buf
+	default:
+		panic("VerifC13DriverBytes: unknown decoder type")
+	}
+	defer func() {
+		if r := recover(); r != nil {
+			if e, ok := r.(error); ok {
+				v.Err = e
+			} else {
+				panic(r)
+			}
+		}
+		if iorbuf != nil {
+			v.ReaderBuf = (*iorbuf)[:cap(*iorbuf)]
+		}
+		v.Scratch = append(v.Scratch, base.buf[:cap(base.buf)], base.b[:])
+		if jbuf != nil {
+			v.Scratch = append(v.Scratch, (*jbuf)[:cap(*jbuf)])
+		}
+	}()
+	var st dBytesAttachState
+	if asString {
+		v.Bytes, st = dr.DecodeStringAsBytes()
+	} else {
+		v.Bytes, st = dr.DecodeBytes()
+	}
+	v.Att = uint8(st)
+	return
+}
+
+func verifC13Syms(v *VerifC13View, syms map[uint16][]byte) {
+	for _, b := range syms {
+		v.SymTab = append(v.SymTab, b)
+	}
+}
+
+// VerifC13NextValueBytes is decoder.rawBytes' source: the driver's nextValueBytes
+// view (as returned, not copied) and the reader buffer after the call.
+func VerifC13NextValueBytes(d *Decoder) (bs []byte, readerBuf []byte, err error) {
+	defer func() {
+		if r := recover(); r != nil {
+			if e, ok := r.(error); ok {
+				err = e
+			} else {
+				panic(r)
+			}
+		}
+	}()
+	bs = d.decoderI.nextValueBytes()
+	switch x := d.decoderI.(type) {
+	case *decoderCborIO:
+		readerBuf = x.d.r.buf[:cap(x.d.r.buf)]
+	case *decoderMsgpackIO:
+		readerBuf = x.d.r.buf[:cap(x.d.r.buf)]
+	case *decoderBincIO:
+		readerBuf = x.d.r.buf[:cap(x.d.r.buf)]
+	case *decoderSimpleIO:
+		readerBuf = x.d.r.buf[:cap(x.d.r.buf)]
+	case *decoderJsonIO:
+		readerBuf = x.d.r.buf[:cap(x.d.r.buf)]
+	}
+	return
+}
